@@ -261,7 +261,7 @@ class SchemaGen:
             return str(rng.choice([0, 1, -7, 42, 2147483647]))
         if t == "Float":
             self.feats.add("default.float")
-            return rng.choice(["0.5", "-1.25", "3.0", "1e3", "7"])
+            return rng.choice(["0.5", "-1.25", "3.0", "1e3", "7", "1.0", "0.0", "1", "0"])  # (1.0 == 1 == True and 0.0 == 0 == False in Python: the kinds must not be confused)
         if t == "String":
             self.feats.add("default.string")
             return rng.choice(STRING_DEFAULTS if "strdefault.quotes" in self.dirty or True else STRING_DEFAULTS[:2])
